@@ -2453,9 +2453,10 @@ class NameCheckVisitor(node_visitor.ReplacingNodeVisitor):
                                 break
                         if partly_used_target:
                             continue
-                    if len(statement.targets) == 1 and not isinstance(
-                        statement.targets[0], (ast.List, ast.Tuple)
-                    ):
+                    # Only remove the assignment if the unused name is what it assigns
+                    # to; the name may also be bound by a walrus inside the value of an
+                    # assignment to some other (used) name.
+                    if len(statement.targets) == 1 and statement.targets[0] is unused:
                         replacement = self.remove_node(unused, statement)
                 elif isinstance(statement, ast.comprehension):
                     if isinstance(statement.target, ast.Tuple):
